@@ -231,20 +231,38 @@ def f64_copysign(x: ir.f64, y: ir.f64) -> ir.f64:
     return math.copysign(x, y)
 
 
-def f32_min(x: ir.f32, y: ir.f32) -> ir.f32:
+def _float_min(x: float, y: float) -> float:
+    """Minimum as defined by wasm: NaN propagates and -0.0 < +0.0."""
+    if math.isnan(x) or math.isnan(y):
+        return math.nan
+    if x == y:  # only differs for zeros of opposite sign
+        return x if math.copysign(1.0, x) < 0 else y
     return min(x, y)
+
+
+def _float_max(x: float, y: float) -> float:
+    """Maximum as defined by wasm: NaN propagates and +0.0 > -0.0."""
+    if math.isnan(x) or math.isnan(y):
+        return math.nan
+    if x == y:
+        return x if math.copysign(1.0, x) > 0 else y
+    return max(x, y)
+
+
+def f32_min(x: ir.f32, y: ir.f32) -> ir.f32:
+    return _float_min(x, y)
 
 
 def f64_min(x: ir.f64, y: ir.f64) -> ir.f64:
-    return min(x, y)
+    return _float_min(x, y)
 
 
 def f32_max(x: ir.f32, y: ir.f32) -> ir.f32:
-    return max(x, y)
+    return _float_max(x, y)
 
 
 def f64_max(x: ir.f64, y: ir.f64) -> ir.f64:
-    return max(x, y)
+    return _float_max(x, y)
 
 
 def f32_abs(x: ir.f32) -> ir.f32:
